@@ -13,35 +13,66 @@ theorem char_range (c : Char) : c.toNat < 0xD800 ∨ (0xDFFF < c.toNat ∧ c.toN
   unfold UInt32.isValidChar Nat.isValidChar at this
   exact this
 
+theorem utf8DecSt_cons (st : U8) (b : Nat) (r : List Nat) :
+    utf8DecSt st (b :: r) = (u8Step st b).1 ++ utf8DecSt (u8Step st b).2 r := by
+  cases st <;> rfl
+
 theorem utf8Dec_enc (c : Char) (rest : List Nat) :
     utf8Dec (utf8Enc c ++ rest) = c :: utf8Dec rest := by
   have hv := char_range c
   have hc : Char.ofNat c.toNat = c := Char.ofNat_toNat c
-  unfold utf8Enc
+  unfold utf8Enc utf8Dec
   by_cases h1 : c.toNat < 0x80
   · simp only [h1, if_true, List.cons_append, List.nil_append]
-    rw [utf8Dec.eq_def]; simp only []; rw [if_pos h1, hc]
+    rw [utf8DecSt_cons]
+    simp only [u8Step, u8Start, if_pos h1, hc, List.cons_append, List.nil_append]
   · by_cases h2 : c.toNat < 0x800
     · simp only [h1, h2, if_true, if_false, List.cons_append, List.nil_append]
-      rw [utf8Dec.eq_def]; simp only []
-      rw [if_neg (by omega), if_neg (by omega), if_pos (by omega), if_pos (by omega)]
+      rw [utf8DecSt_cons]
+      simp only [u8Step, u8Start]
+      rw [if_neg (by omega), if_neg (by omega), if_pos (by omega)]
+      simp only [List.nil_append]
+      rw [utf8DecSt_cons]
+      simp only [u8Step]
+      rw [if_pos (by omega), if_pos (by omega)]
       have : (0xC0 + c.toNat / 64 - 0xC0) * 64 + (0x80 + c.toNat % 64 - 0x80) = c.toNat := by omega
-      rw [this, hc]
+      simp only [this, hc, List.cons_append, List.nil_append]
     · by_cases h3 : c.toNat < 0x10000
       · simp only [h1, h2, h3, if_true, if_false, List.cons_append, List.nil_append]
-        rw [utf8Dec.eq_def]; simp only []
-        rw [if_neg (by omega), if_neg (by omega), if_neg (by omega), if_pos (by omega),
-          if_neg (by omega), if_pos (by omega)]
-        have : (0xE0 + c.toNat / 4096 - 0xE0) * 4096 + (0x80 + c.toNat / 64 % 64 - 0x80) * 64 +
+        rw [utf8DecSt_cons]
+        simp only [u8Step, u8Start]
+        rw [if_neg (by omega), if_neg (by omega), if_neg (by omega), if_pos (by omega)]
+        simp only [List.nil_append]
+        rw [utf8DecSt_cons]
+        simp only [u8Step]
+        rw [if_pos (by split <;> split <;> omega), if_neg (by omega)]
+        simp only [List.nil_append]
+        rw [utf8DecSt_cons]
+        simp only [u8Step]
+        rw [if_pos (by omega), if_pos (by omega)]
+        have : ((0xE0 + c.toNat / 4096 - 0xE0) * 64 + (0x80 + c.toNat / 64 % 64 - 0x80)) * 64 +
             (0x80 + c.toNat % 64 - 0x80) = c.toNat := by omega
-        rw [this, hc]
+        simp only [this, hc, List.cons_append, List.nil_append]
       · simp only [h1, h2, h3, if_false, List.cons_append, List.nil_append]
-        rw [utf8Dec.eq_def]; simp only []
+        rw [utf8DecSt_cons]
+        simp only [u8Step, u8Start]
         rw [if_neg (by omega), if_neg (by omega), if_neg (by omega), if_neg (by omega),
-          if_pos (by omega), if_neg (by omega), if_neg (by omega), if_pos (by omega)]
-        have : (0xF0 + c.toNat / 262144 - 0xF0) * 262144 + (0x80 + c.toNat / 4096 % 64 - 0x80) * 4096 +
-            (0x80 + c.toNat / 64 % 64 - 0x80) * 64 + (0x80 + c.toNat % 64 - 0x80) = c.toNat := by omega
-        rw [this, hc]
+          if_pos (by omega)]
+        simp only [List.nil_append]
+        rw [utf8DecSt_cons]
+        simp only [u8Step]
+        rw [if_pos (by split <;> split <;> omega), if_neg (by omega)]
+        simp only [List.nil_append]
+        rw [utf8DecSt_cons]
+        simp only [u8Step]
+        rw [if_pos (by omega), if_neg (by omega)]
+        simp only [List.nil_append]
+        rw [utf8DecSt_cons]
+        simp only [u8Step]
+        rw [if_pos (by omega), if_pos (by omega)]
+        have : (((0xF0 + c.toNat / 262144 - 0xF0) * 64 + (0x80 + c.toNat / 4096 % 64 - 0x80)) * 64 +
+            (0x80 + c.toNat / 64 % 64 - 0x80)) * 64 + (0x80 + c.toNat % 64 - 0x80) = c.toNat := by omega
+        simp only [this, hc, List.cons_append, List.nil_append]
 
 theorem utf8Dec_utf8_append (s : Str) (rest : List Nat) :
     utf8Dec (utf8 s ++ rest) = s ++ utf8Dec rest := by
@@ -54,7 +85,7 @@ theorem utf8Dec_utf8_append (s : Str) (rest : List Nat) :
 /-- decoding the UTF-8 encoding of any text gives the text back -/
 theorem utf8Dec_utf8 (s : Str) : utf8Dec (utf8 s) = s := by
   have := utf8Dec_utf8_append s []
-  simpa [utf8Dec] using this
+  simpa [utf8Dec, utf8DecSt] using this
 
 /-! ### percent-encoding -/
 
@@ -75,16 +106,15 @@ theorem utf8Enc_lt (c : Char) : ∀ b ∈ utf8Enc c, b < 256 := by
 
 theorem unquoteBytes_cons_ne (c : Char) (t : Str) (h : c ≠ '%') :
     unquoteBytes (c :: t) = utf8Enc c ++ unquoteBytes t := by
-  rw [unquoteBytes.eq_def]
-  simp [h]
+  simp [unquoteBytes, unquoteBytesAux, h]
 
 theorem unquoteBytes_pct (b : Nat) (hb : b < 256) (t : Str) :
     unquoteBytes (pctByte b ++ t) = b :: unquoteBytes t := by
   have h1 := hexVal_hexU (b / 16) (by omega)
   have h2 := hexVal_hexU (b % 16) (by omega)
-  rw [unquoteBytes.eq_def]
-  simp only [pctByte, List.cons_append, List.nil_append, h1, h2]
-  simp
+  simp only [unquoteBytes, pctByte, List.cons_append, List.nil_append, unquoteBytesAux, beq_self_eq_true,
+    if_true, hexPair, h1, h2]
+  congr 1
   omega
 
 theorem unquoteBytes_pcts (bs : List Nat) (h : ∀ b ∈ bs, b < 256) (t : Str) :
